@@ -43,6 +43,8 @@ struct World {
     sub_real: HashMap<i64, u32>,
     sub_model: HashMap<u32, i64>,
     item_samp: HashMap<(i64, i64), i64>,
+    /// microseconds per model clock unit (case field `unit_us`, default one second)
+    unit_us: i64,
 }
 
 fn real_item(w: &World, sm: i64, id: u32, item: i64) -> u32 {
@@ -64,7 +66,7 @@ fn real_item(w: &World, sm: i64, id: u32, item: i64) -> u32 {
 
 impl World {
     fn at(&self, t: i64) -> CDateTime<Utc> {
-        self.base + CDuration::milliseconds(t * UNIT_MS)
+        self.base + CDuration::microseconds(t * self.unit_us)
     }
 
     fn variant_int(v: &Option<Variant>) -> i64 {
@@ -188,7 +190,7 @@ fn step(w: &mut World, s: &Value) -> (Vec<Value>, Vec<Value>) {
         "CreateSub" => {
             let req = CreateSubscriptionRequest {
                 request_header: w.c.header(),
-                requested_publishing_interval: (geti(s, "itv") * UNIT_MS) as f64,
+                requested_publishing_interval: (geti(s, "itv") * w.unit_us) as f64 / 1000.0,
                 requested_lifetime_count: geti(s, "lt") as u32,
                 requested_max_keep_alive_count: geti(s, "ka") as u32,
                 max_notifications_per_publish: 0,
@@ -217,7 +219,7 @@ fn step(w: &mut World, s: &Value) -> (Vec<Value>, Vec<Value>) {
             let req = ModifySubscriptionRequest {
                 request_header: w.c.header(),
                 subscription_id: id,
-                requested_publishing_interval: (geti(s, "itv") * UNIT_MS) as f64,
+                requested_publishing_interval: (geti(s, "itv") * w.unit_us) as f64 / 1000.0,
                 requested_lifetime_count: geti(s, "lt") as u32,
                 requested_max_keep_alive_count: geti(s, "ka") as u32,
                 max_notifications_per_publish: 0,
@@ -256,7 +258,7 @@ fn step(w: &mut World, s: &Value) -> (Vec<Value>, Vec<Value>) {
                 monitoring_mode: mode,
                 requested_parameters: MonitoringParameters {
                     client_handle: (sm * 100 + geti(s, "item")) as u32,
-                    sampling_interval: if samp < 0 { -1.0 } else { (samp * UNIT_MS) as f64 },
+                    sampling_interval: if samp < 0 { -1.0 } else { (samp * w.unit_us) as f64 / 1000.0 },
                     filter: ExtensionObject::null(),
                     queue_size: geti(s, "qsize") as u32,
                     discard_oldest: getb(s, "dold"),
@@ -301,7 +303,7 @@ fn step(w: &mut World, s: &Value) -> (Vec<Value>, Vec<Value>) {
                     monitored_item_id: ri,
                     requested_parameters: MonitoringParameters {
                         client_handle: (sm * 100 + item) as u32,
-                        sampling_interval: if samp < 0 { -1.0 } else { (samp * UNIT_MS) as f64 },
+                        sampling_interval: if samp < 0 { -1.0 } else { (samp * w.unit_us) as f64 / 1000.0 },
                         filter: ExtensionObject::null(),
                         queue_size: geti(s, "qsize") as u32,
                         discard_oldest: getb(s, "dold"),
@@ -349,7 +351,7 @@ fn step(w: &mut World, s: &Value) -> (Vec<Value>, Vec<Value>) {
                 .unwrap_or_default();
             let mut h = w.c.header();
             h.timestamp = opcua::types::DateTime::from(w.at(geti(s, "ts")));
-            h.timeout_hint = (geti(s, "hint") * UNIT_MS) as u32;
+            h.timeout_hint = (geti(s, "hint") * w.unit_us / 1000) as u32;
             let req = PublishRequest {
                 request_header: h,
                 subscription_acknowledgements: if acks.is_empty() { None } else { Some(acks) },
@@ -426,7 +428,8 @@ pub fn run_case(case: &Value, out: &mut Obs) {
         }
         // whole seconds: OPC UA DateTime has 100 ns ticks, the clock must survive the conversion exactly
         let base = CDateTime::<Utc>::from_timestamp(Utc::now().timestamp(), 0).unwrap();
-        let mut w = World { c, base, now: 0, sub_real: HashMap::new(), sub_model: HashMap::new(), item_samp: HashMap::new() };
+        let unit_us = case.get("unit_us").and_then(|v| v.as_i64()).unwrap_or(UNIT_MS * 1000);
+        let mut w = World { c, base, now: 0, sub_real: HashMap::new(), sub_model: HashMap::new(), item_samp: HashMap::new(), unit_us };
         let empty = vec![];
         let steps = case.get("steps").and_then(|s| s.as_array()).unwrap_or(&empty);
         for (i, s) in steps.iter().enumerate() {
